@@ -44,6 +44,7 @@ RULE = ("Enumerated part: files of 0, 1, 16384, 16385, 40000 bytes, the "
         "directory was transferred in more than one chunk or a fault fired. "
         "Distinct: event-log digests among non-trivial runs.")
 RULE += (' Also: retry after an interrupted attempt (stale <name>.tmp), and a transit path that replays / duplicates a genuine record frame.')
+RULE += (' Texts and offered names include sequences that are not in Unicode NFC form.')
 LEVEL_TEXT = ("Fault enumeration over cut/corruption points of fixed payloads "
               "plus seeded exploration. Oracle: receive() success => the tree "
               "at the announced destination equals what the sender read, "
